@@ -42,6 +42,15 @@ Qed.
 Lemma b64_encode_nil b : b64_encode b = [] -> b = [].
 Proof. destruct b as [|x [|y [|z r]]]; cbn; congruence. Qed.
 
+Lemma b64_decode_cons4 a b c d r : r <> [] ->
+  b64_decode (a :: b :: c :: d :: r) =
+  match b64_val a, b64_val b, b64_val c, b64_val d, b64_decode r with
+  | Some p, Some q, Some t, Some u, Some rest =>
+      Some (p * 4 + q / 16 :: (q mod 16) * 16 + t / 4 :: (t mod 4) * 64 + u :: rest)
+  | _, _, _, _, _ => None
+  end.
+Proof. intro H. destruct r; [congruence|reflexivity]. Qed.
+
 Theorem b64_roundtrip : forall b, Forall (fun x => x < 256) b -> b64_decode (b64_encode b) = Some b.
 Proof.
   induction b as [|x|x y|x y z r IH] using list_ind3; intro HF.
@@ -69,10 +78,9 @@ Proof.
     assert (B3 : (((y mod 16) * 4 + z / 64) mod 4) * 64 + z mod 64 = z) by ndm.
     change (b64_encode (x :: y :: z :: r)) with
       (b64_char (x / 4) :: b64_char ((x mod 4) * 16 + y / 16) :: b64_char ((y mod 16) * 4 + z / 64) :: b64_char (z mod 64) :: b64_encode r).
-    cbn [b64_decode].
     destruct (b64_encode r) as [|c rest] eqn:ER.
-    + apply b64_encode_nil in ER. subst r.
+    + apply b64_encode_nil in ER. subst r. cbn [b64_decode].
       destruct (b64_char (z mod 64) =? 61) eqn:E4; [apply N.eqb_eq in E4; contradiction|].
       rewrite V1, V2, V3, V4, B1, B2, B3. reflexivity.
-    + rewrite V1, V2, V3, V4. cbn [b64_decode] in IH. rewrite IH, B1, B2, B3. reflexivity.
+    + rewrite b64_decode_cons4 by discriminate. rewrite V1, V2, V3, V4, IH, B1, B2, B3. reflexivity.
 Qed.
